@@ -8,10 +8,13 @@ import I18n.Lemmas.CFmtWitness
 `add_argument`, the gap and type checks); `Spec.Printf` is the reference: items, `render`, `Valid`, `signature`.
 The tables the model reads are regenerated from the live module on every run (`Generated.CFormatTables`).
 
-One clause of the property is false of the code: `int()` refuses numerals of more than 4300 digits with
-`ValueError`, which is not one of the parser's own errors and also makes it reject valid strings
-(`%.000…0d`).  Hence `parse_error_own_refuted` / `parse_iff_valid_refuted` (witness replayed on the real code by
-the check, recorded in known_findings.json) and the `_partial` theorems under "no digit run longer than the limit".
+History: on the pinned tree one clause was false of the code — `int()` refused numerals of more than 4300 digits
+with `ValueError`, which is not one of the parser's own errors and also made it reject valid strings (`%.000…0d`).
+That was repaired by `fix:` 871d4d7 in /repo (lib/__init__.py lifts the limit).  The model keeps `int()`'s limit as
+the generated constant `intMaxStrDigits` (0 = no limit, CPython's convention); `int_unlimited` pins it to 0 as dumped
+from the running tool, and with it the `_partial` theorems (stated for any limit) give the unrestricted clauses
+`parse_complete`, `parse_iff_valid`, `parse_error_own`.  If the limit ever comes back the pin stops compiling and the
+check replays the old witness on the real code.
 -/
 namespace I18n.Props.C11
 open I18n I18n.CFmt I18n.Spec.Printf
@@ -99,25 +102,33 @@ theorem parse_iff_valid_partial {s : List Char} (hs : ShortNumerals s) (sig : Li
   · rintro ⟨items, rfl, hv, rfl⟩
     exact parse_complete_partial hv hs
 
-/-! ### the witness against the unrestricted equivalence and against "own errors only"
-`CFmt.witness` = `%.` + 4301 zeros + `d` (Lemmas/CFmtWitness.lean): valid (`witness_valid`), and the model raises
-`ValueError` on it (`witness_crash`, derived symbolically from the `int()` step of the model). -/
+/-! ### the unrestricted clauses -/
 
-/-- the recorded witness: `%.` + 4301 zeros + `d` is valid printf (precision 0), and the model raises `ValueError` -/
+/-- **The tool runs without an `int()` digit limit**: `sys.get_int_max_str_digits()`, dumped by the translator after
+    importing `lib`, is 0. -/
+theorem int_unlimited : CFormatTables.intMaxStrDigits = 0 := by decide
+
+theorem shortNumerals_all (s : List Char) : ShortNumerals s := Or.inl int_unlimited
+
+/-- **Completeness**: every valid printf string is accepted, with its signature. -/
+theorem parse_complete {items : List Item} (hv : Valid items) :
+    ∃ r, parse (render items) = .ok r ∧ r.arguments = signature items :=
+  parse_complete_partial hv (shortNumerals_all _)
+
+/-- **C11, first two clauses, for every string**: a string is accepted with argument list `sig` iff it is the
+    rendering of valid printf items whose signature is `sig`. -/
+theorem parse_iff_valid (s : List Char) (sig : List (List Entry)) :
+    (∃ r, parse s = .ok r ∧ r.arguments = sig) ↔
+      ∃ items, render items = s ∧ Valid items ∧ sig = signature items :=
+  parse_iff_valid_partial (shortNumerals_all s) sig
+
+/-- the witness that refuted this before the fix: `%.` + 4301 zeros + `d` is valid printf (precision 0) and is
+    accepted with one `int` argument -/
 theorem witness_outcome :
     witness = '%' :: '.' :: (List.replicate 4301 '0' ++ ['d']) ∧
-    (∃ items, render items = witness ∧ Valid items) ∧ parse witness = .error (.crash .ValueError) :=
+    ∃ r, parse witness = .ok r ∧ r.arguments = signature [.dir (zeroPrec (List.replicate 4301 '0'))] :=
   ⟨by simp [witness, render, Item.render, Directive.render, Directive.renderTail, zeroPrec, renderIdx, Width.render,
-      Prec.render, Body.render, renderLen], ⟨_, rfl, witness_valid⟩, witness_crash⟩
-
-/-- **The unrestricted equivalence is false of the code** (known finding: the `int()` digit limit). -/
-theorem parse_iff_valid_refuted :
-    ¬ ∀ (s : List Char) (sig : List (List Entry)),
-      (∃ r, parse s = .ok r ∧ r.arguments = sig) ↔ ∃ items, render items = s ∧ Valid items ∧ sig = signature items := by
-  intro h
-  obtain ⟨r, hr, _⟩ := (h witness _).2 ⟨_, rfl, witness_valid, rfl⟩
-  rw [witness_crash] at hr
-  cases hr
+      Prec.render, Body.render, renderLen], parse_complete witness_valid⟩
 
 /-! ## Errors -/
 
@@ -153,11 +164,9 @@ theorem parse_error_own_partial {s : List Char} (hs : ShortNumerals s) {e : CErr
     · exact ho
     · exact absurd (dirShort_of_scan hs) hns
 
-/-- **The unrestricted clause is false of the code**: the witness raises `ValueError`. -/
-theorem parse_error_own_refuted : ¬ ∀ (s : List Char) (e : CErr), parse s = .error e → e.own = true := by
-  intro h
-  have := h witness _ witness_crash
-  cases this
+/-- **C11, last clause, for every string**: rejection raises only the parser's own `Error` classes. -/
+theorem parse_error_own {s : List Char} {e : CErr} (h : parse s = .error e) : e.own = true :=
+  parse_error_own_partial (shortNumerals_all s) h
 
 /-! ## Warnings, `*` arguments -/
 
@@ -222,10 +231,6 @@ example : (parse "%lls %!".toList).map (·.arguments) = .error .LengthError := b
 example : (parse "100%".toList).map (·.arguments) = .error .Error := by rfl
 example : (parse "%-05d".toList).map (·.warnings) = .ok [.RedundantFlag] := by rfl
 example : (parseW false "%-05d".toList).map (·.warnings) = .ok [] := by rfl
-example : ShortNumerals "%5.3d".toList := by
-  intro a ds b h _
-  have := congrArg List.length h
-  simp [CFormatTables.intMaxStrDigits] at this ⊢
-  omega
+example : ShortNumerals "%5.3d".toList := shortNumerals_all _
 
 end I18n.Props.C11
